@@ -50,6 +50,7 @@ type hbObs struct {
 	N        int      `json:"n"`       // backend invocations
 	NameOK   bool     `json:"nameok"`  // the path variable arrived intact
 	CTOK     bool     `json:"ctok"`    // upload: the HttpBody's content_type is the request's Content-Type
+	NoteOK   bool     `json:"noteok"`  // upload: the field left to the query string (?note=...) arrived
 	NMsgs    int      `json:"nmsgs"`   // upload: messages the backend received
 	Code     int      `json:"code"`    // RPC code reported to the client (from the JSON error body), 0 = OK
 	Panic    bool     `json:"panic"`
@@ -113,7 +114,7 @@ func init() {
 		var calls atomic.Int64
 		var gotName atomic.Value
 		var upMsgs atomic.Int64
-		upCTOK, upDataOK := atomic.Bool{}, atomic.Bool{}
+		upCTOK, upDataOK, upNoteOK := atomic.Bool{}, atomic.Bool{}, atomic.Bool{}
 
 		handler := http.HandlerFunc(func(w http.ResponseWriter, req *http.Request) {
 			calls.Add(1)
@@ -192,6 +193,7 @@ func init() {
 						gotName.Store(b.Get(blobDesc.Fields().ByName("filename")).String())
 						file := b.Get(blobDesc.Fields().ByName("file")).Message()
 						upCTOK.Store(file.Get(bodyDesc.Fields().ByName("content_type")).String() == hs.CT)
+						upNoteOK.Store(b.Get(blobDesc.Fields().ByName("note")).String() == "hello world & more")
 					}
 					file := b.Get(blobDesc.Fields().ByName("file")).Message()
 					data = append(data, file.Get(bodyDesc.Fields().ByName("data")).Bytes()...)
@@ -219,7 +221,8 @@ func init() {
 		var reqBody []byte
 		method, path := http.MethodGet, "/v1/"+rawName+":download"
 		if hs.Dir == "upload" {
-			method, path = http.MethodPost, "/v1/"+rawName+":upload"
+			// (the body is bound to "file", the path to "filename": "note" is left to the query string)
+			method, path = http.MethodPost, "/v1/"+rawName+":upload?note=hello%20world+%26+more"
 			reqBody = all
 			if hs.CT != "" {
 				hdr.Set("Content-Type", hs.CT)
@@ -272,7 +275,7 @@ func init() {
 			obs.DataOK = derr == nil && bytes.Equal(decoded, all)
 		} else {
 			obs.NMsgs = int(upMsgs.Load())
-			obs.CTOK, obs.DataOK = upCTOK.Load(), upDataOK.Load()
+			obs.CTOK, obs.DataOK, obs.NoteOK = upCTOK.Load(), upDataOK.Load(), upNoteOK.Load()
 			if obs.Status == http.StatusOK {
 				// the reply is the JSON form of Msg{name: "stored"}
 				m := dynamicpb.NewMessage(msgDesc("Msg"))
